@@ -35,7 +35,11 @@ impl BigInt
 
     pub fn from_bytes_be(bytes: &[u8]) -> BigInt
     {
-        let bigint = num_bigint::BigInt::from_signed_bytes_be(&bytes);
+        // The bytes are a bit pattern, not a two's complement number:
+        // a first byte of 0x80 or more does not make the value negative
+        let bigint = num_bigint::BigInt::from_bytes_be(
+            num_bigint::Sign::Plus,
+            &bytes);
         BigInt {
             bigint,
             size: Some(bytes.len() * 8),
